@@ -17,7 +17,8 @@
 use num_bigint::BigInt;
 use std::collections::BTreeMap;
 use yui::{EucRing, EucRingOps};
-use yui_homology::{GridTrait, SummandTrait};
+use yui_homology::{ComputeHomology, GridTrait, SummandTrait};
+use yui_kh::kh::KhComplexBigraded;
 use yui_kh::kh::KhHomology;
 use yui_link::Link;
 use yui_verif_harness::khutil::*;
@@ -50,6 +51,26 @@ fn via_total_z(l: &Link, red: bool) -> (String, String) {
     (v.iter().map(|((i, j), s)| format!("({},{})={}", i, j, s)).collect::<Vec<_>>().join(" "), nhd.join(" "))
 }
 
+/// the table of the bigraded pieces computed WITHOUT generators (`compute_homology(with_trans = false)`: the Smith
+/// normalisation is then asked for a subset of its transformation matrices) - must be the route-A table
+fn notrans_table<R>(l: &Link, red: bool) -> String
+where
+    R: yui::EucRing + std::fmt::Display,
+    for<'x> &'x R: yui::EucRingOps<R>,
+{
+    let z = R::zero();
+    let h = KhComplexBigraded::<R>::new(l, &z, &z, red).compute_homology(false);
+    let mut v: Vec<((isize, isize), String)> = vec![];
+    for idx in h.support() {
+        let s = h.get(idx);
+        if s.rank() > 0 || !s.tors().is_empty() {
+            v.push(((idx.0, idx.1), summand_str(s, true)));
+        }
+    }
+    v.sort();
+    v.iter().map(|((i, j), s)| format!("({},{})={}", i, j, s)).collect::<Vec<_>>().join(" ")
+}
+
 fn all_tables(l: &Link) -> String {
     let mut out = vec![];
     let knot = l.components().len() == 1;
@@ -68,6 +89,10 @@ fn all_tables(l: &Link) -> String {
             out.push(format!("Q{}{}[{}]", rt, r, kh_table_bigraded::<Q>(l, red, false, via_total)));
             out.push(format!("F2{}{}[{}]", rt, r, kh_table_bigraded::<F2>(l, red, false, via_total)));
             out.push(format!("F3{}{}[{}]", rt, r, kh_table_bigraded::<F3>(l, red, false, via_total)));
+        }
+        out.push(format!("NA{}[{}]", r, notrans_table::<i64>(l, red)));
+        if l.crossing_num() <= 10 {
+            out.push(format!("MA{}[{}]", r, notrans_table::<i128>(l, red)));
         }
         if l.crossing_num() <= 9 {
             out.push(format!("WA{}[{}]", r, kh_table_bigraded::<i128>(l, red, true, false)));
@@ -205,6 +230,8 @@ fn main() {
                 }
                 v
             };
+            // 10_132: torsion in adjacent homological degrees of one q-degree
+            if let Ok(l) = Link::load("10_132") { links.push((l.mirror(), false)); links.push((l, false)); }
             let nk = if thorough { 80 } else { 14 };
             for _ in 0..nk {
                 let name = r.pick(&names).clone();
